@@ -35,10 +35,27 @@ use serde_json::{json, Value};
 pub type Row<T> = (String, Box<dyn Fn(&T) -> String>);
 pub type Cross<T> = (String, Box<dyn Fn(&T, &T) -> bool>);
 
+/// A *state* of a value: something the public API lets a holder of the
+/// value do to it (or to a copy of it) that must not change any accessor
+/// answer — cloning, switching on an internal cache, storing it in a
+/// container that does so, sending it through its own encoder and decoder
+/// again. `Err` = the state could not be reached (recorded, not judged).
+pub type State<T> = (String, Box<dyn Fn(&T) -> Result<T, String>>);
+
 pub struct Table<T> {
     pub kind: &'static str,
     pub rows: Vec<Row<T>>,
     pub cross: Vec<Cross<T>>,
+    pub states: Vec<State<T>>,
+}
+
+fn state<T, F: Fn(&T) -> Result<T, String> + 'static>(name: &str, f: F) -> State<T> {
+    (name.to_string(), Box::new(f))
+}
+
+fn serde_round_trip<T: serde::Serialize + serde::de::DeserializeOwned>(v: &T) -> Result<T, String> {
+    let js = serde_json::to_string(v).map_err(|e| e.to_string())?;
+    serde_json::from_str(&js).map_err(|e| e.to_string())
 }
 
 fn row<T, F: Fn(&T) -> String + 'static>(name: &str, f: F) -> Row<T> {
@@ -236,7 +253,16 @@ pub fn cert_cross() -> Vec<Cross<Cert>> {
 }
 
 pub fn cert_table(kind: &'static str) -> Table<Cert> {
-    Table { kind, rows: cert_rows(), cross: cert_cross() }
+    Table {
+        kind,
+        rows: cert_rows(),
+        cross: cert_cross(),
+        states: vec![
+            state("clone", |c: &Cert| Ok(c.clone())),
+            state("decode(to_captured)", |c: &Cert| Cert::decode(c.to_captured().into_bytes()).map_err(|e| e.to_string())),
+            state("serde round trip", |c: &Cert| serde_round_trip(c)),
+        ],
+    }
 }
 
 //------------ Crl -----------------------------------------------------------
@@ -285,7 +311,53 @@ pub fn crl_table(probes: Vec<Serial>) -> Table<Crl> {
             cross("issuer ==", |a: &Crl, b: &Crl| a.issuer() == b.issuer()),
             cross("signed_data ==", |a: &Crl, b: &Crl| a.signed_data() == b.signed_data()),
         ],
+        // every `&mut self` method of `Crl` and the container that calls it (`CrlStore`)
+        states: vec![
+            state("clone", |c: &Crl| Ok(c.clone())),
+            state("cache_serials", |c: &Crl| {
+                let mut c = c.clone();
+                c.cache_serials();
+                Ok(c)
+            }),
+            state("cache_serials twice", |c: &Crl| {
+                let mut c = c.clone();
+                c.cache_serials();
+                c.cache_serials();
+                Ok(c)
+            }),
+            state("cache_serials;clone", |c: &Crl| {
+                let mut c = c.clone();
+                c.cache_serials();
+                Ok(c.clone())
+            }),
+            state("CrlStore(enable_serial_caching).push;get", |c: &Crl| crl_store(c, true)),
+            state("CrlStore.push;get", |c: &Crl| crl_store(c, false)),
+            state("decode(to_captured)", |c: &Crl| Crl::decode(c.to_captured().into_bytes()).map_err(|e| e.to_string())),
+            state("decode(to_captured);cache_serials", |c: &Crl| {
+                let mut c = Crl::decode(c.to_captured().into_bytes()).map_err(|e| e.to_string())?;
+                c.cache_serials();
+                Ok(c)
+            }),
+            state("serde round trip", |c: &Crl| serde_round_trip(c)),
+        ],
     }
+}
+
+#[allow(deprecated)]
+fn crl_store(c: &Crl, caching: bool) -> Result<Crl, String> {
+    use rpki::repository::crl::CrlStore;
+    use std::str::FromStr;
+    let mut store = CrlStore::new();
+    if caching {
+        store.enable_serial_caching();
+    }
+    let other = uri::Rsync::from_str("rsync://example.net/repo/other.crl").map_err(|e| e.to_string())?;
+    let mine = uri::Rsync::from_str("rsync://example.net/repo/ca.crl").map_err(|e| e.to_string())?;
+    store.push(mine.clone(), c.clone());
+    if store.get(&other).is_some() {
+        return Err("store returns a CRL for a URI that was never pushed".into());
+    }
+    store.get(&mine).cloned().ok_or_else(|| "store lost the CRL".to_string())
 }
 
 //------------ Manifest ------------------------------------------------------
@@ -321,7 +393,16 @@ pub fn manifest_table(base: uri::Rsync) -> Table<Manifest> {
         row("serde_json", |m: &Manifest| serde_json::to_string(m).unwrap_or_else(|e| format!("error {}", e))),
     ];
     rows.extend(lift("cert", cert_rows(), |m: &Manifest| m.cert()));
-    Table { kind: "manifest", rows, cross: vec![] }
+    Table {
+        kind: "manifest",
+        rows,
+        cross: vec![],
+        states: vec![
+            state("clone", |m: &Manifest| Ok(m.clone())),
+            state("decode(to_captured)", |m: &Manifest| Manifest::decode(m.to_captured().into_bytes(), true).map_err(|e| e.to_string())),
+            state("serde round trip", |m: &Manifest| serde_round_trip(m)),
+        ],
+    }
 }
 
 //------------ Roa -----------------------------------------------------------
@@ -380,7 +461,16 @@ pub fn roa_table() -> Table<Roa> {
         row("serde_json", |r: &Roa| serde_json::to_string(r).unwrap_or_else(|e| format!("error {}", e))),
     ];
     rows.extend(lift("cert", cert_rows(), |r: &Roa| r.cert()));
-    Table { kind: "roa", rows, cross: vec![] }
+    Table {
+        kind: "roa",
+        rows,
+        cross: vec![],
+        states: vec![
+            state("clone", |r: &Roa| Ok(r.clone())),
+            state("decode(to_captured)", |r: &Roa| Roa::decode(r.to_captured().into_bytes(), true).map_err(|e| e.to_string())),
+            state("serde round trip", |r: &Roa| serde_round_trip(r)),
+        ],
+    }
 }
 
 //------------ Aspa ----------------------------------------------------------
@@ -405,7 +495,16 @@ pub fn aspa_table() -> Table<Aspa> {
         row("serde_json", |a: &Aspa| serde_json::to_string(a).unwrap_or_else(|e| format!("error {}", e))),
     ];
     rows.extend(lift("cert", cert_rows(), |a: &Aspa| a.cert()));
-    Table { kind: "aspa", rows, cross: vec![] }
+    Table {
+        kind: "aspa",
+        rows,
+        cross: vec![],
+        states: vec![
+            state("clone", |a: &Aspa| Ok(a.clone())),
+            state("decode(to_captured)", |a: &Aspa| Aspa::decode(a.to_captured().into_bytes(), true).map_err(|e| e.to_string())),
+            state("serde round trip", |a: &Aspa| serde_round_trip(a)),
+        ],
+    }
 }
 
 //------------ Csr -----------------------------------------------------------
@@ -430,6 +529,11 @@ pub fn csr_table() -> Table<RpkiCaCsr> {
             row("serde_json", |c: &RpkiCaCsr| serde_json::to_string(c).unwrap_or_else(|e| format!("error {}", e))),
         ],
         cross: vec![cross("subject ==", |a: &RpkiCaCsr, b: &RpkiCaCsr| a.subject() == b.subject())],
+        states: vec![
+            state("clone", |c: &RpkiCaCsr| Ok(c.clone())),
+            state("decode(to_captured)", |c: &RpkiCaCsr| RpkiCaCsr::decode(c.to_captured().as_slice()).map_err(|e| e.to_string())),
+            state("serde round trip", |c: &RpkiCaCsr| serde_round_trip(c)),
+        ],
     }
 }
 
@@ -463,6 +567,11 @@ pub fn idcert_table(kind: &'static str) -> Table<IdCert> {
                 x == y
             }),
         ],
+        states: vec![
+            state("clone", |c: &IdCert| Ok(c.clone())),
+            state("decode(to_captured)", |c: &IdCert| IdCert::decode(c.to_captured().as_slice()).map_err(|e| e.to_string())),
+            state("serde round trip", |c: &IdCert| serde_round_trip(c)),
+        ],
     }
 }
 
@@ -478,6 +587,10 @@ pub fn sigmsg_table(kind: &'static str) -> Table<SignedMessage> {
             row("to_captured", |m: &SignedMessage| hex(m.to_captured().as_slice())),
         ],
         cross: vec![],
+        states: vec![
+            state("clone", |m: &SignedMessage| Ok(m.clone())),
+            state("decode(to_captured)", |m: &SignedMessage| SignedMessage::decode(m.to_captured().as_slice(), true).map_err(|e| e.to_string())),
+        ],
     }
 }
 
@@ -503,10 +616,16 @@ fn first_diff(a: &str, b: &str) -> usize {
 pub fn compare<T>(ctx: &mut Ctx, table: &Table<T>, built: &T, decoded: &T, detail: &dyn Fn() -> Value) -> (u64, u64) {
     let mut n = 0u64;
     let mut bad = 0u64;
+    // the agreed answer of every row (None where the first pass already reported)
+    let mut base: Vec<Option<String>> = Vec::with_capacity(table.rows.len());
     for (rname, f) in &table.rows {
         n += 1;
         let a = catch(|| f(built));
         let b = catch(|| f(decoded));
+        base.push(match (&a, &b) {
+            (Ok(x), Ok(y)) if x == y => Some(x.clone()),
+            _ => None,
+        });
         match (a, b) {
             (Ok(a), Ok(b)) => {
                 if a != b {
@@ -561,9 +680,95 @@ pub fn compare<T>(ctx: &mut Ctx, table: &Table<T>, built: &T, decoded: &T, detai
             }
         }
     }
+    // State across calls: a value brought into another state the public API
+    // offers (see `State`) is still the same object; it has to answer every
+    // accessor as the pristine built value and its pristine twin did, and the
+    // value it was derived from must answer as before. Only done when the
+    // first pass agreed on everything, so that one defect is reported once.
+    if bad == 0 && !table.states.is_empty() {
+        let call = COMPARE_CALLS.with(|c| {
+            let v = c.get();
+            c.set(v + 1);
+            v
+        });
+        let mut rng = crate::core::Rng::derive(ctx.seed, &["C05", "states"], &[ctx.shard, call]);
+        for _ in 0..2 {
+            let on_built = rng.bool();
+            let (side, src) = if on_built { ("built", built) } else { ("decoded", decoded) };
+            let (sname, sf) = &table.states[rng.usize_below(table.states.len())];
+            ctx.sig(&format!("{}:state={} of {}", table.kind, sname, side));
+            let derived = match catch(|| sf(src)) {
+                Err(text) => {
+                    bad += 1;
+                    ctx.obs("panics_caught", 1);
+                    ctx.violation(
+                        &format!("C05:state-panic:{}.{}:{}", table.kind, sname, side),
+                        &format!("{}: `{}` panics on the {} value ({})", table.kind, sname, side, panic_location(&text)),
+                        json!({"panic": text, "case": detail()}),
+                    );
+                    continue;
+                }
+                Ok(Err(e)) => {
+                    ctx.obs(&format!("state_not_reached:{}.{}", table.kind, sname), 1);
+                    let _ = e;
+                    continue;
+                }
+                Ok(Ok(v)) => v,
+            };
+            ctx.obs("states_entered", 1);
+            let mut order: Vec<usize> = (0..table.rows.len()).collect();
+            rng.shuffle(&mut order);
+            for phase in 0..2 {
+                // phase 0: the derived value, rows in random order; phase 1: the value it came from, again
+                let target = if phase == 0 { &derived } else { src };
+                for &i in &order {
+                    let Some(want) = &base[i] else { continue };
+                    let (rname, f) = &table.rows[i];
+                    n += 1;
+                    let (sig, text) = if phase == 0 {
+                        (
+                            format!("{}.{}:after:{}", table.kind, rname, sname),
+                            format!("accessor `{}` answers differently once the {} value went through `{}`", rname, side, sname),
+                        )
+                    } else {
+                        (
+                            format!("{}.{}:source-of:{}", table.kind, rname, sname),
+                            format!("accessor `{}` of the {} value answers differently after `{}` was applied to a copy of it", rname, side, sname),
+                        )
+                    };
+                    match catch(|| f(target)) {
+                        Ok(got) => {
+                            if &got != want {
+                                bad += 1;
+                                let at = first_diff(want, &got);
+                                ctx.violation(
+                                    &format!("C05:accessor-differs:{}", sig),
+                                    &format!("{}: {}", table.kind, text),
+                                    json!({"pristine": clip(want), "now": clip(&got), "first_difference_at": at, "state": sname, "side": side, "case": detail()}),
+                                );
+                            }
+                        }
+                        Err(p) => {
+                            bad += 1;
+                            ctx.obs("panics_caught", 1);
+                            ctx.violation(
+                                &format!("C05:accessor-panic:{}", sig),
+                                &format!("{}: accessor `{}` panics ({}) in state `{}` of the {} value", table.kind, rname, panic_location(&p), sname, side),
+                                json!({"panic": p, "pristine": clip(want), "state": sname, "side": side, "case": detail()}),
+                            );
+                        }
+                    }
+                }
+            }
+        }
+    }
     ctx.evals(n);
     ctx.obs("accessor_rows_compared", n);
     (n, bad)
+}
+
+thread_local! {
+    static COMPARE_CALLS: std::cell::Cell<u64> = const { std::cell::Cell::new(0) };
 }
 
 pub fn row_count<T>(t: &Table<T>) -> usize {
